@@ -8,6 +8,8 @@ package checks
 
 import (
 	"fmt"
+
+	"golang.org/x/sys/unix"
 	"net"
 	"net/netip"
 	"os"
@@ -41,6 +43,22 @@ func c13CloseInFlight(x *engine.X) {
 		}
 	})
 	var keep []any
+	// A process started with descriptor 0 closed (a daemon, `cmd <&-`) hands 0 to the next object it creates: a
+	// descriptor number like any other. For the kinds the harness creates without descriptors of its own in between.
+	if kind == "packet" || kind == "listener" || kind == "peer" || kind == "timer" {
+		if x.Pick(2, "descriptor 0 is free when the object is created") == 1 {
+			save, err := unix.FcntlInt(0, unix.F_DUPFD_CLOEXEC, 100)
+			if err != nil {
+				engine.HarnessError("dup of descriptor 0: %v", err)
+			}
+			syscall.Close(0)
+			x.Defer(func() {
+				unix.Dup3(save, 0, 0)
+				syscall.Close(save)
+			})
+			x.Note("descriptor 0 freed before the object is created")
+		}
+	}
 	before := kern.Census(c13Dir)
 	var closeFn func() error
 	var read, write func()
